@@ -70,6 +70,7 @@ def run(ctx):
                 ctx.case(repr(bs2), True)
     enum_by_name_oracle(ctx, g)
     aux_field_scenarios(ctx, g)
+    forward_references(ctx, g)
     for tag, m in enum_sweep_messages(enums):
         r = protocheck.reader_stream(ctx, g, batch, m, tag)
         ctx.case(tag, True)
@@ -89,6 +90,40 @@ def run(ctx):
                        "all-false, non-ASCII names, unknown attribute numbers, every enum constant by random choice, AuxData with node references); R: one message per declared enum "
                        "constant plus %d random schema-valid closed messages built directly from the descriptors; non-trivial = at least one module" % (nw, nr))
     ctx.sample({"writer_tag": "W0", "reader_first": "enum sweep then random messages"})
+
+
+def forward_references(ctx, g):
+    """Known finding (recorded, not repaired; the same single-pass, module-by-module decoding as D7): a referentially closed message in
+    which a reference of module N names a node defined in a LATER module -- an entry point, a symbol referent, the symbol of a
+    symbolic expression -- is rejected with DeserializationError, although every reference resolves inside the message (the library's
+    own writer produces such messages).  The mirrored message (the later module referring to the earlier one) loads (control)."""
+    import io
+    for kind in ("entry-point", "symbol-referent", "expression-symbol"):
+        for forward in (True, False):
+            ir = g.IR()
+            a, b = g.Module(name="a", ir=ir), g.Module(name="b", ir=ir)
+            src, dst = (a, b) if forward else (b, a)
+            bi_src = g.ByteInterval(size=8, section=g.Section(name="s", module=src))
+            bi_dst = g.ByteInterval(size=8, section=g.Section(name="s", module=dst))
+            blk = g.CodeBlock(size=1, byte_interval=bi_dst)
+            if kind == "entry-point":
+                src.entry_point = blk
+            elif kind == "symbol-referent":
+                g.Symbol("callee", payload=blk, module=src)
+            else:
+                bi_src.symbolic_expressions[0] = g.SymAddrConst(0, g.Symbol("y", module=dst))
+            buf = io.BytesIO()
+            ir.save_protobuf_file(buf)
+            ctx.case("forward-reference:%s:%s" % (kind, forward), True)
+            try:
+                ir2 = g.IR.load_protobuf_file(io.BytesIO(buf.getvalue()))
+                ok = ir.deep_eq(ir2)
+                if not ok:
+                    ctx.add("oracle", "reader-field:cross-module-reference", "a message with a cross-module %s loads, but not to the same content" % kind, {"file": buf.getvalue().hex()})
+            except Exception as e:  # noqa: BLE001
+                ctx.add("oracle", "forward-reference-later-module" if forward else "reader:closed-message-rejected",
+                        "a referentially closed message whose %s in module %s names a node of %s module is rejected with %s"
+                        % (kind, "1" if forward else "2", "a LATER" if forward else "an EARLIER", exc_name(g, e)), {"kind": kind, "file": buf.getvalue().hex()})
 
 
 def aux_field_scenarios(ctx, g):
